@@ -8,8 +8,12 @@ GROUP = "ratio"
 LEAN_PROPS = "Dashu.Props.C04"
 LEAN_AUDIT = "Dashu.Audit.C04"
 # compositions with other groups' proved files, kept apart from the property's own theorems
-GEN_PROPS = ["Dashu.Props.C04Link"]
-GEN_AUDIT = ["Dashu.Audit.C04Link"]
+GEN_PROPS = ["Dashu.Props.C04Link", "Dashu.Props.C04Gen"]
+GEN_AUDIT = ["Dashu.Audit.C04Link", "Dashu.Audit.C04Gen"]
+# Tie A: lean/Dashu/Gen/RatOps.lean (macro bodies of rational/src/{add,mul,div}.rs + invocation table, vlib/extract_ratops.py) and
+# lean/Dashu/Gen/RatFns.lean (Repr-level fn bodies of repr/round/div/sign/mul/rbig.rs, vlib/extract_ratfns.py) are regenerated
+# from /repo on every run; Props/C04Gen proves the model functions equal to them
+USES_GEN = True
 JOBS = 12
 
 REFINED = ["Repr::reduce", "Repr::reduce_with_hint", "Repr::reduce2",
@@ -20,9 +24,30 @@ REFINED = ["Repr::reduce", "Repr::reduce_with_hint", "Repr::reduce2",
            "impl_rbig_div_ubig / _ibig / impl_ubig_or_ibig_div_rbig (+ Relaxed)", "impl_rem_with_rbig / _relaxed",
            "impl_euclid_div / impl_euclid_rem_* / impl_euclid_divrem_*", "Repr::sqr / cubic / pow",
            "Repr::neg / abs / signum / Mul<Sign>", "Inverse for Repr", "Repr::fract / split_at_point / trunc / floor / ceil / round",
-           "RBig::relax / Relaxed::canonicalize", "register programs (run): every register ever produced"]
-FRONTIER = ["dashu-int kernels used by the rational layer are taken at their contracts (gcd: the contract is proved equal to the mirrored integer gcd of C12 for every word size — Props/C04Link gcd_contract_is_proved_kernel): Gcd::gcd (= Nat.gcd, panics on (0,0)), "
-            "IBig/UBig *, +, -, / (truncated), %, div_euclid/rem_euclid, trailing_zeros, >>, pow (properties C01, C02, C09, C12)",
+           "RBig::relax / Relaxed::canonicalize", "register programs (run): every register ever produced",
+           "TIE A (round 5): all 24 operator macro bodies of rational/src/{add,mul,div}.rs and the 48 impl_binop_with_macro!/impl_binop_with_int! "
+           "invocations are REGENERATED from /repo on every run (vlib/extract_ratops.py -> lean/Dashu/Gen/RatOps.lean) and Props/C04Gen proves each "
+           "body equal to the model function the driver executes, for all inputs incl. zero denominators and panics "
+           "(binary_ops_regenerated, int_right_ops_regenerated, int_left_ops_regenerated, euclid_ops_regenerated, invocations_regenerated); "
+           "likewise the 20 Repr-level function bodies: repr.rs reduce / reduce_with_hint / reduce2, round.rs split_at_point / ceil / floor / trunc / "
+           "fract / round, div.rs Inverse::inv, sign.rs neg / abs / Mul<Sign>, mul.rs sqr / cubic / pow, rbig.rs from_parts / from_parts_signed of both "
+           "types (vlib/extract_ratfns.py -> lean/Dashu/Gen/RatFns.lean; reductions_regenerated, rounding_regenerated, unary_regenerated, "
+           "constructors_regenerated). Still hand-mirrored only (Tie B + theorem, no Tie A): from_parts_const's `while` loop (both types)",
+           "IBig::pow sign rule (negative iff negative base and odd exponent) + UBig::pow shortcuts (exp 0, base 0, base 1): ipowK / upowK, proved = ^",
+           "RBig/Relaxed is_zero / is_one (Relaxed: numerator == denominator) / is_int / sign / into_parts / clone_from / ZERO ONE NEG_ONE default (driven; predicates proved)",
+           "histories: Relaxed = RBig over whole programs (history_relaxed_equals_rbig, history_canonicalize_equals_rbig), reduce2 invariant over "
+           "Relaxed-only histories (history_relaxed_reduce2_invariant)"]
+FRONTIER = ["dashu-int kernels used by the rational layer are taken at their contracts, and EVERY one of them is now linked by theorem (Props/C04Link, "
+            "import of the owning property's Props module, every word size) to the mirrored and proved integer kernel: Gcd::gcd = C12's gcd "
+            "(gcd_contract_is_proved_kernel, reduce_over_proved_gcd); IBig *, +, - = C01 (ring_contracts_are_proved_kernels, add_int_over_proved_kernels, "
+            "mul_num_over_proved_kernels); UBig::pow / IBig::pow incl. the sign rule = C01 (pow_contracts_are_proved_kernels); truncated / and %, div_euclid, "
+            "rem_euclid with their zero-divisor panics = C02 (div_contracts_are_proved_kernels); trailing_zeros and >> = C09 "
+            "(bit_contracts_are_proved_kernels). What stays trusted is only that composition is by value (SRepr.ofInt / ofNat wrappers), not a re-execution of "
+            "the word-level kernels inside the rational driver (that would make the driver quadratically slower without adding a statement)",
+            "pow with a base other than 0, 1, -1 and an exponent beyond memory (even bases: exp.checked_mul(shift) / shl allocation panic) is not driven here: "
+            "the result size guard is C01's u_pow_checked_exact / C16's transcription",
+            "RBig::from_parts_const / Relaxed::from_parts_const: hand-mirrored (const Euclid `while` loop) with theorem + Tie B only; the `while` loop is outside "
+            "the subset vlib/extract_ratfns.py regenerates",
 ]
 RULE = ("operands n/d built from size classes {tiny, 1 word, 2 words (inline boundary), 3-6 words, 10-40 words} x bit patterns "
         "x signs, then related to each other the way the code branches: denominators coprime (g = 1 shortcut) or sharing a "
@@ -31,7 +56,15 @@ RULE = ("operands n/d built from size classes {tiny, 1 word, 2 words (inline bou
         "operands, zero divisors; every binary op of {add,sub,mul,div,rem,remeuclid,diveuclid,divremeuclid}, unary "
         "{neg,abs,inv,sqr,cubic,pow,signum,mulsign,fract,split,trunc,floor,ceil,round,relax,canon}, mixed {+,-,*,/} with UBig/IBig on "
         "either side, constructors, for RBig and Relaxed, all ownership/assign call forms; register programs of 1-40 steps "
-        "feeding results back (values steered with exact fractions so that most steps are defined). Non-trivial := a program "
+        "feeding results back (values steered with exact fractions so that most steps are defined); round 5: pow with the usize exponent at every "
+        "machine boundary (0, 1, W-1, W, W+1, 2W, 2^31, 2^32-1, 2^32, 2^32+k, 2^63±k, MAX-k, k ≤ 130) on the bases 0, 1, -1 of both types, alone and inside "
+        "programs whose later steps see the parity-dependent sign; pow of small bases with exponents across every shortcut of integer pow; "
+        "qp.preds (sign/is_zero/is_one/is_int/into_parts/clone_from, values ±1 stored as n/n, zero numerators, integers, zero denominators) and qp.consts; "
+        "E2: for k of EVERY bit length 1..320 (thorough: each length x3; quick: the word edges + 30 sampled lengths): exact and just-off ties of % and "
+        "round/floor/ceil/trunc at ±(k + 1/2), rem_euclid at multiples ±1, components 2^e, 2^e ± 1, common powers of two of every count (reduce2 shifts "
+        "across word boundaries), gcd hint g = k with the numerator sum cancelling all/part/none of it, cross factors k for mul/div and the mixed integer "
+        "forms; from_parts_const at the DoubleWord boundaries (0, 1, 2^63, 2^64 ± 1, 2^127, 2^128 - 1 - k, common factors that survive in u128). "
+        "Non-trivial := a program "
         "with >= 4 steps or an operand with a component of >= 3 words; distinct := distinct case lines. Measured on the quick "
         "tier (seed 20260929): RBig add/sub reach the g = 1 shortcut 355x and the hint branch 172x (remaining common factor "
         "1: 111, a proper divisor of g: 25, all of g: 36); RBig mul has cross gcds (gcd(a,d) > 1, gcd(b,c) > 1) in all four "
@@ -41,9 +74,14 @@ EXPLANATION = ("Theorems (all integers, no size bound): for reduced operands eve
                "nearest and Euclidean remainders, powers, inverse, mixed integer forms), division by zero is exactly the "
                "DivideByZero panic; every Relaxed operation returns the same value and keeps 'not both even'; reduce2 strips "
                "exactly the common power of two; history theorem: every register of every finite program satisfies its "
-               "type's invariant and equals the value-level interpretation. The model is tied to /repo by differential "
+               "type's invariant and equals the value-level interpretation; the same program on Relaxed and on RBig registers denoting "
+               "the same numbers stops the same way with the same values, canonicalize of each Relaxed register is the stored RBig pair. "
+               "The model is tied to /repo twice: (A) every operator macro body of rational/src/{add,mul,div}.rs and every Repr-level function "
+               "body (reduce*, rounding, inverse, sign, powers, constructors) is regenerated from the "
+               "source on every run and proved equal to the model function (a source edit breaks the theorem build), (B) differential "
                "execution printing numerator()/denominator() as stored after every step.")
-ASSUMPTIONS = ["dashu-int Gcd::gcd, *, +, -, /, %, div_euclid, rem_euclid, trailing_zeros, >>, pow meet their contracts (C01, C02, C09, C12)"]
+ASSUMPTIONS = ["dashu-int Gcd::gcd, *, +, -, /, %, div_euclid, rem_euclid, trailing_zeros, >>, pow meet their contracts (C01, C02, C09, C12) — each contract is "
+               "proved equal to the owning property's mirrored kernel in Props/C04Link"]
 THEOREMS = []  # filled from the audit (every theorem printed there is counted)
 READY = True
 
@@ -316,8 +354,102 @@ def gen_prog(rng, tier):
     return Case("prog", toks + [";"] + steps)
 
 
+W = 64
+UMAX = (1 << 64) - 1
+
+
+def extreme_exponents(rng, n):
+    """ROUND4 addendum E1: the usize exponent of `pow` at every machine boundary (cheap only for the bases 0, 1, -1)"""
+    fixed = [0, 1, 2, 3, W - 1, W, W + 1, 2 * W, 1 << 31, (1 << 32) - 1, 1 << 32, 1 << 63, (1 << 63) - 1, UMAX, UMAX - 1]
+    out = list(fixed)
+    for _ in range(n):
+        r = rng.random()
+        if r < 0.35:
+            out.append((1 << 32) + rng.randrange(130))
+        elif r < 0.7:
+            out.append(UMAX - rng.randrange(131))
+        elif r < 0.85:
+            out.append((1 << 63) + rng.randrange(-130, 130))
+        else:
+            out.append(rng.getrandbits(rng.choice([16, 31, 33, 48, 63, 64])))
+    return out
+
+
 def generate(rng, tier):
     quick = tier == "quick"
+    # ---- E1: extreme usize exponents of pow on the bases whose powers are cheap (0, 1, -1; RBig and Relaxed)
+    for n in extreme_exponents(rng, 40 if quick else 600):
+        base = rng.choice([(0, 1), (1, 1), (-1, 1), (-1, 1)])
+        yield Case("q.pow", [q(base[0], base[1], rng.choice("RX")), "d:%d" % n])
+    for _ in range(30 if quick else 400):
+        # the same inside programs (parity of the exponent decides the sign that later steps see)
+        k = rng.choice("RX")
+        n1, n2 = rng.choice(extreme_exponents(rng, 8)), rng.choice(extreme_exponents(rng, 8))
+        a, b = frac(rng, "quick")
+        yield Case("prog", [q(-1, 1, k), q(a, b, k), ";", "pow,0,%d" % n1, "mul,2,1", "pow,2,%d" % n2, "add,3,4", "sub,4,2"])
+    # moderate exponents on small bases: every shortcut of integer pow (exp < wexp, < 2*wexp, square-and-multiply)
+    for _ in range(60 if quick else 1500):
+        a = signed(rng, rng.choice([2, 3, 5, 6, 7, 10, 12, 255, 256, 65535, (1 << 32) - 1, (1 << 32) + 1]))
+        b = rng.choice([1, 2, 3, 7, 9, 10, 16, 255, (1 << 31) + 1])
+        n = rng.choice([0, 1, 2, 3, 4, 7, 8, 15, 16, 20, 31, 32, 33, 40, 63, 64, 65, 100, 127, 128, 129, 200])
+        yield Case("q.pow", [q(a, b, rng.choice("RX")), "d:%d" % n])
+    # ---- E2: boundary classes for k of EVERY bit length (not only near the ends of the word)
+    edge = [1, 2, 3, 31, 32, 33, 63, 64, 65, 66, 95, 96, 127, 128, 129, 130, 191, 192, 193, 255, 256, 257]
+    lens = list(range(1, 321)) if not quick else sorted(set(edge + [rng.randrange(1, 321) for _ in range(30)]))
+    reps = 1 if quick else 3
+    for L in lens:
+        for _ in range(reps):
+            k = rng.getrandbits(L) | (1 << (L - 1))
+            kk = rng.choice("RX")
+            # exact ties and just-off ties of `%` and round(): x / y = ±(k + 1/2) (+- 1/(2m))
+            yn, yd = signed(rng, pos(rng, "quick", 0.7)), pos(rng, "quick", 0.7)
+            sgn_ = rng.choice([1, -1])
+            xn, xd = sgn_ * (2 * k + 1) * yn, 2 * yd
+            yield Case("q.rem", [q(xn, xd, kk), q(yn, yd, kk)])
+            m = rng.getrandbits(rng.choice([1, 8, 64, L])) + 1
+            off = rng.choice([1, -1])
+            yield Case("q.rem", [q(xn * m + off * yn, xd * m, kk), q(yn, yd, kk)])
+            yield Case("q." + rng.choice(["round", "floor", "ceil", "trunc", "fract", "split"]), [q(sgn_ * (2 * k + 1), 2, kk)])
+            yield Case("q." + rng.choice(["round", "floor", "ceil", "trunc"]), [q(sgn_ * ((2 * k + 1) * m + off), 2 * m, kk)])
+            yield Case("q.remeuclid", [q(sgn_ * k * yn + rng.choice([0, 1, -1]), yd, kk), q(yn, yd, kk)])
+            # 2^e ± 1 components; common powers of two of every count (reduce2 shifts across word boundaries)
+            e2 = rng.randrange(1, 321)
+            a = signed(rng, (1 << L) + rng.choice([-1, 0, 1]))
+            b = max(1, (1 << e2) + rng.choice([-1, 0, 1]))
+            yield Case("q." + rng.choice(BIN), [q(a, b, kk), q(signed(rng, b), max(1, abs(a)), kk)])
+            o1, o2 = rng.getrandbits(rng.choice([1, 40, 70])) | 1, rng.getrandbits(rng.choice([1, 40, 70])) | 1
+            yield Case("q.fromparts", [hx(signed(rng, o1 << L)), "%x" % (o2 << e2), kk])
+            yield Case("q." + rng.choice(["add", "sub", "mul", "div"]), [q(o1 << L, o2, "X"), q(o2, o1 << e2, "X")])
+            # gcd hint g of this bit length: denominators g*b', g*d', numerator sum cancelling all / part / none of g
+            g = k
+            bp, dp = pos(rng, "quick", 0.8), pos(rng, "quick", 0.8)
+            a1 = signed(rng, pos(rng, "quick", 0.8))
+            c1 = signed(rng, pos(rng, "quick", 0.8))
+            if gcd(bp, g) == 1 and rng.random() < 0.6:
+                gp = gcd(g, rng.choice([g, 2, 3, 6, 1 << 64]))
+                if gp > 1:
+                    c1 = (-a1 * dp * pow(bp, -1, gp)) % gp + gp * rng.getrandbits(rng.choice([1, 64]))
+            yield Case("q." + rng.choice(["add", "sub", "rem", "remeuclid", "divremeuclid"]), [q(a1, g * bp, "R"), q(c1, g * dp, "R")])
+            # cross factors of this bit length for mul / div and the mixed integer forms
+            yield Case("q." + rng.choice(["mul", "div"]), [q(a1 * g, bp, "R"), q(c1, dp * g, "R")])
+            lit, zv = zlit(rng, tier, signed(rng, g * rng.choice([1, 2, 3])))
+            yield Case(rng.choice(["q.mulz", "q.divz"]), [q(a1 * g, bp * g + 1, "R"), lit])
+            yield Case(rng.choice(["q.zmul", "q.zdiv"]), [lit, q(a1 * g + 1, bp * g, "R")])
+    # ---- predicates / accessors / constants of rbig.rs and sign.rs (is_zero, is_one, is_int, sign, into_parts, clone_from)
+    yield Case("qp.consts", ["R"])
+    yield Case("qp.consts", ["X"])
+    for _ in range(300 if quick else 6000):
+        a, b = frac(rng, tier)
+        r = rng.random()
+        if r < 0.15:
+            a = b * rng.choice([1, 1, -1])        # value ±1, stored as n/n for a Relaxed with odd n
+        elif r < 0.25:
+            b = 1
+        elif r < 0.30:
+            a = signed(rng, 1)
+        elif r < 0.33:
+            b = 0                                  # constructor panic
+        yield Case("qp.preds", [q(a, b, rng.choice("RX"))])
     # ---- binary ops on related pairs
     for _ in range(3000 if quick else 90000):
         (a, b), (c, d) = related_pair(rng, tier)
@@ -388,6 +520,24 @@ def generate(rng, tier):
             if rng.random() < 0.05:
                 d = 0
             yield Case("q.frompartsconst", [rng.choice("+-"), "%x" % n, "%x" % d, k])
+    # ---- E1: from_parts_const at the DoubleWord boundaries (both magnitudes are u128 with 64-bit words)
+    dw = [0, 1, 2, 3, (1 << 63) - 1, 1 << 63, (1 << 64) - 1, 1 << 64, (1 << 64) + 1, (1 << 127) - 1, 1 << 127, (1 << 127) + 1]
+    for _ in range(150 if quick else 4000):
+        def pick():
+            r = rng.random()
+            if r < 0.45:
+                return rng.choice(dw)
+            if r < 0.75:
+                return (1 << 128) - 1 - rng.randrange(131)
+            if r < 0.9:
+                return (1 << 64) + rng.randrange(-130, 131)
+            return rng.getrandbits(rng.choice([2, 64, 65, 127, 128]))
+        n, d = pick(), pick()
+        if rng.random() < 0.4 and d > 1:
+            # a common factor that survives in u128: n = g*n', d = g*d'
+            g = rng.choice([2, 3, (1 << 32) + 15, (1 << 64) - 59, 1 << 63])
+            n, d = (g * rng.getrandbits(rng.choice([1, 30, 63]))) % (1 << 128), (g * (rng.getrandbits(rng.choice([1, 30, 63])) | 1)) % (1 << 128)
+        yield Case("q.frompartsconst", [rng.choice("+-"), "%x" % n, "%x" % d, rng.choice("RX")])
     # ---- register programs
     for _ in range(1200 if quick else 40000):
         yield gen_prog(rng, tier)
@@ -398,9 +548,11 @@ LEVEL_TEXT = ("Machine-checked Lean 4 theorems, for all integers (no size bound)
               "arithmetic, returns a pair with positive denominator coprime to the numerator whose value in Lean's Rat equals the "
               "exact result (incl. the gcd-hint reduction of addition and the cross-gcd cancellation of mul/div), panics with "
               "DivideByZero exactly on zero divisors, Relaxed operations return the same values and reduce2 strips exactly the "
-              "common power of two; history theorem over register programs. The hand-written model is tied to /repo on every run "
-              "by differential execution (numerator()/denominator() as stored, all ownership/assign call forms, programs of "
-              "1-40 steps feeding results back).")
+              "common power of two; history theorems over register programs (invariants, values, Relaxed = RBig over whole histories, "
+              "reduce2 fixed point); sign corners of pow/inv; predicates. Tie A: all 24 operator macro bodies of rational/src/{add,mul,div}.rs, "
+              "their 48 invocations and 20 Repr-level function bodies (reductions, rounding, inverse, sign, powers, constructors) are "
+              "regenerated from /repo on every run and proved equal to the model functions for all inputs (Props/C04Gen). Tie B: differential execution (numerator()/denominator() as stored, all ownership/assign call forms, "
+              "programs of 1-40 steps feeding results back, extreme usize exponents).")
 LEVEL_NOTE = ("Trusted: Lean kernel; axioms propext/Classical.choice/Quot.sound; the correspondence harness and generators "
               "(sampling) for the tie model<->code; dashu-int kernels (gcd, mul, div, shifts, trailing_zeros) are taken at their "
               "contracts here and are the subject of C01/C02/C09/C12.")
